@@ -561,12 +561,24 @@ func doBinaryOp(a constant.Value, tok token.Token, b constant.Value, ctx []*inte
 		if b.Kind() == constant.Unknown {
 			panic(fmt.Errorf("invalid shift count: cannot convert type %v to type uint", ctx[1].Type))
 		}
+		if a.Kind() == constant.Unknown {
+			panic(fmt.Errorf("invalid operation: shifted operand of type %v must be integer", ctx[0].Type))
+		}
 		if s, exact := constant.Int64Val(b); exact {
+			if s < 0 {
+				panic(fmt.Errorf("invalid shift count: negative shift count %v", b))
+			}
+			if s > maxShiftCount {
+				panic(errors.New("shift count too large (overflow)"))
+			}
 			return constant.Shift(a, tok, uint(s))
 		}
 		panic(errors.New("shift count too large (overflow)"))
 	}
 }
+
+// maxShiftCount is the largest constant shift count that is folded (the bound go/types uses).
+const maxShiftCount = 1023 - 1 + 52
 
 // checkConstKinds reports operands that go/constant cannot combine (a boolean with a string,
 // a number with a string, ...) as an error; constant.BinaryOp/Compare fail a type assertion on them.
